@@ -67,6 +67,12 @@ def _g_link(ctx):
         tk, rk = KINDS[k % 3]
         case = dict(case, tx_kind=tk, rx_kind=rk, crc=2, auto_ack=True, sub="link")
         yield case
+        if case["form"] == "single" and k % 5 == 0 and tk == "lite" and not case.get("aw_first"):
+            # static lengths configured first, ACK payloads enabled afterwards: the link is in
+            # dynamic mode from then on (receiving pipe 0 when the peer is the full driver)
+            yield dict(case, static_cfg=rng.randrange(1, 33), static=None,
+                       pre=[rng.choice(["ack_on", "ack_load"])], pipe=0 if rk == "full" else case["pipe"],
+                       ask_no_ack=False)
 
 
 def _g_send(ctx):
